@@ -20,10 +20,10 @@ package sensors
 //@   returns (result, err)
 //@   ghostret lastValue := result
 //@   ensures same(lastValue, result)
-//@   props C08
+//@   props C08 C17
 //@   ensures[C08.propagate] lastReadFailed ==> err != nil
 //@   ensures[C08.finite]    err == nil ==> fin(result)
-//@   ensures[C08.value]     err == nil ==> real(result) == real(fileInt[sensor.Input]) || !(-9007199254740992 <= fileInt[sensor.Input] && fileInt[sensor.Input] <= 9007199254740992)
+//@   ensures[C08.value C17] err == nil ==> real(result) == real(fileInt[sensor.Input]) || !(-9007199254740992 <= fileInt[sensor.Input] && fileInt[sensor.Input] <= 9007199254740992)
 //@   modifies lastReadFailed, lastValue
 //@ func (*HwmonSensor).GetMovingAvg
 //@   params (sensor)
